@@ -408,4 +408,512 @@ theorem opnd_reads {O : List Tok} {m : Meaning} (h : Opnd O m) : Reads O m := by
   have := opnds_reads true (O, m) [] (by simpa using h)
   simpa [interc] using this
 
+/-! ## the scanner on pieces -/
+
+/-- the text collected for the token that is being read when the actions end -/
+def pend : Chars → List Act → Chars
+  | acc, [] => acc
+  | acc, .push c :: as => pend (acc ++ [c]) as
+  | _, .emit _ :: as => pend [] as
+
+theorem interp_append (A B : List Act) : ∀ acc, interp acc (A ++ B) = interp acc A ++ interp (pend acc A) B := by
+  induction A with
+  | nil => intro acc; simp [interp, pend]
+  | cons x xs ih => intro acc; cases x <;> simp [interp, pend, ih]
+
+/-- text that ends at a token boundary is scanned on its own -/
+theorem lexL_append_boundary (a b : Chars) (h1 : (run .dflt a).1 = .dflt) (h2 : pend [] (run .dflt a).2 = []) :
+    lexL (a ++ b) = lexL a ++ lexL b := by
+  have e1 : lexL a = interp [] (run .dflt a).2 := by
+    simp only [lexL, lexFrom, acts, h1, finish, List.append_nil]
+  have e2 : lexL (a ++ b) = interp [] ((run .dflt a).2 ++ ((run .dflt b).2 ++ finish (run .dflt b).1)) := by
+    simp only [lexL, lexFrom, acts, run_append, h1, List.append_assoc]
+  have e3 : lexL b = interp [] ((run .dflt b).2 ++ finish (run .dflt b).1) := by
+    simp only [lexL, lexFrom, acts]
+  rw [e1, e2, e3, interp_append, h2]
+
+theorem run_num_digits {cs : Chars} (h : ∀ c ∈ cs, c.isDigit = true) : run .num cs = (.num, pushAll cs) := by
+  induction cs with
+  | nil => rfl
+  | cons c cs ih =>
+    have hc := h c (by simp)
+    simp [run, step, hc, ih (fun d hd => h d (by simp [hd])), pushAll]
+
+theorem lexL_digits {cs : Chars} (hne : cs ≠ []) (h : ∀ c ∈ cs, c.isDigit = true) :
+    lexL cs = [(.num, String.ofList cs)] := by
+  cases cs with
+  | nil => exact absurd rfl hne
+  | cons c cs =>
+    have hc := h c (by simp)
+    have h0 : step .dflt c = (.num, [.push c]) := by simp [step, stepD, classOf_digit hc]
+    have hr := run_num_digits (cs := cs) (fun d hd => h d (by simp [hd]))
+    simp only [lexL, lexFrom, acts, run, h0, hr]
+    simp only [finish]
+    have := interp_pushAll [] (c :: cs) [.emit .num]
+    simpa [pushAll, interp] using this
+
+theorem lexL_natDigits (n : Nat) : lexL (natDigits n) = [(.num, String.ofList (natDigits n))] :=
+  lexL_digits (natDigits_ne_nil n) (natDigits_isDigit n)
+
+theorem lexL_neg_digits {cs : Chars} (hne : cs ≠ []) (h : ∀ c ∈ cs, c.isDigit = true) :
+    lexL ('-' :: cs) = [(.op "-", ""), (.num, String.ofList cs)] := by
+  cases cs with
+  | nil => exact absurd rfl hne
+  | cons c cs =>
+    have hc := h c (by simp)
+    have h0 : step .dflt '-' = (.op ['-'], []) := by decide
+    have hne1 : c ≠ '-' := by intro h'; subst h'; revert hc; decide
+    have hne2 : c ≠ '*' := by intro h'; subst h'; revert hc; decide
+    have h1 : step (.op ['-']) c = (.num, [.emit (.op "-"), .push c]) := by
+      simp [step, hne1, hne2, digit_not_op hc, stepD, classOf_digit hc, opToks]
+    have hr := run_num_digits (cs := cs) (fun d hd => h d (by simp [hd]))
+    simp only [lexL, lexFrom, acts, run, h0, h1, hr]
+    simp only [finish]
+    have := interp_pushAll [c] cs [.emit .num]
+    simp only [List.nil_append, List.cons_append, interp]
+    simpa [pushAll, interp] using this
+
+theorem pieceToks_append (ps qs : List Piece) : pieceToks (ps ++ qs) = pieceToks ps ++ pieceToks qs := by
+  induction ps with
+  | nil => rfl
+  | cons p ps ih => simp [pieceToks, ih]
+
+theorem pieceToks_code (c : Chars) (ps : List Piece) : pieceToks (.code c :: ps) = lexL c ++ pieceToks ps := rfl
+
+/-- the token of a quoted literal -/
+def strTok (b : Chars) : Tok := (.str, String.ofList (unq b))
+
+theorem cls_strTok (b : Chars) : cls (strTok b) = .other := rfl
+
+theorem pieceToks_lit {b : Chars} (h : QSafe b) (ps : List Piece) : pieceToks (.lit b :: ps) = strTok b :: pieceToks ps := by
+  show lexL ('\'' :: (b ++ ['\''])) ++ pieceToks ps = _
+  rw [lexL_quoted h]; rfl
+
+/-! ## single conditions -/
+
+def OtherToks (R : List Tok) : Prop := ∀ t ∈ R, cls t = .other
+instance (R : List Tok) : Decidable (OtherToks R) := by unfold OtherToks; infer_instance
+
+theorem scanTop_other (p : Cls → Bool) (hp : p .other = false) : ∀ (R : List Tok), OtherToks R → ∀ d, scanTop p d R = some d
+  | [], _, d => rfl
+  | t :: R, h, d => by
+    have ht := h t (by simp)
+    simp only [scanTop, ht, reduceCtorEq, ↓reduceIte, hp, Bool.false_eq_true, and_false]
+    exact scanTop_other p hp R (fun u hu => h u (by simp [hu])) d
+
+theorem otherToks_append {R S : List Tok} (hR : OtherToks R) (hS : OtherToks S) : OtherToks (R ++ S) := by
+  intro t ht
+  rcases List.mem_append.mp ht with h | h
+  · exact hR t h
+  · exact hS t h
+
+/-- a bound argument is rendered as tokens that are neither parentheses nor connectives -/
+theorem argToks_other (v : JV) : pieceToks [argPiece v] ≠ [] ∧ OtherToks (pieceToks [argPiece v]) := by
+  have lit : ∀ b, QSafe b → pieceToks [.lit b] ≠ [] ∧ OtherToks (pieceToks [.lit b]) := by
+    intro b hb
+    rw [pieceToks_lit hb]
+    exact ⟨by simp, by intro t ht; simp [pieceToks] at ht; subst ht; rfl⟩
+  cases v with
+  | null => exact ⟨by decide, by decide⟩
+  | bool b => cases b <;> exact ⟨by decide, by decide⟩
+  | num n =>
+    cases n with
+    | ofNat n =>
+      show lexL (natDigits n) ++ [] ≠ [] ∧ OtherToks (lexL (natDigits n) ++ [])
+      rw [lexL_natDigits]
+      exact ⟨by simp, by intro t ht; simp at ht; subst ht; rfl⟩
+    | negSucc n =>
+      show lexL ('-' :: natDigits (n + 1)) ++ [] ≠ [] ∧ OtherToks (lexL ('-' :: natDigits (n + 1)) ++ [])
+      rw [lexL_neg_digits (natDigits_ne_nil _) (natDigits_isDigit _)]
+      exact ⟨by simp, by intro t ht; simp at ht; rcases ht with rfl | rfl <;> rfl⟩
+  | str s => exact lit _ (qsafe_quoteBody s)
+  | arr xs => exact lit _ (qsafe_jsonBody _ (jsafe_goJson _))
+  | obj kvs => exact lit _ (qsafe_jsonBody _ (jsafe_goJson _))
+
+/-- the first token is an ordinary one: not a parenthesis, not a connective, not `select`, not a number -/
+def goodHead : List Tok → Bool
+  | [] => false
+  | t :: _ => decide (cls t = .other) && !startsSelect [t] && decide (t.1 ≠ .num)
+
+theorem isAtomToks_of_goodHead {C X : List Tok} (hC : goodHead C = true) (hfree : topFree isConn (C ++ X) = true) :
+    isAtomToks (C ++ X) = true := by
+  cases C with
+  | nil => simp [goodHead] at hC
+  | cons t r =>
+    simp only [goodHead, Bool.and_eq_true, decide_eq_true_eq, Bool.not_eq_true'] at hC
+    obtain ⟨⟨h1, h2⟩, h3⟩ := hC
+    rw [isAtomToks_iff]
+    refine ⟨by simp, hfree, ?_, h2, ?_⟩
+    · exact stripGroup_none_of_head (by rw [h1]; decide)
+    · intro he
+      have : t = (.num, "1") := by simpa [oneEqOne] using (List.cons.inj he).1
+      exact h3 (by rw [this])
+
+/-- an operand that opens with a parenthesis closed before its end (a sub-select compared with something) -/
+theorem isAtomToks_of_tail {C X : List Tok} {u : Tok} (hC : C ≠ []) (hsel : startsSelect C = false)
+    (hlp : C.head?.map cls = some .lp) (hu : cls u = .other) (hfree : topFree isConn (C ++ (X ++ [u])) = true) :
+    isAtomToks (C ++ (X ++ [u])) = true := by
+  rw [isAtomToks_iff]
+  refine ⟨by simp [hC], hfree, ?_, by rw [startsSelect_append _ hC]; exact hsel, ?_⟩
+  · rw [← List.append_assoc]; exact stripGroup_none_of_last (by rw [hu]; decide)
+  · intro he
+    cases C with
+    | nil => exact hC rfl
+    | cons t r =>
+      have : t = (.num, "1") := by simpa [oneEqOne] using (List.cons.inj he).1
+      subst this
+      simp at hlp
+      revert hlp; decide
+
+theorem topFree_parts {p : Cls → Bool} {C X : List Tok} {d : Nat} (h1 : scanTop p 0 C = some d) (h2 : scanTop p d X = some 0) :
+    topFree p (C ++ X) = true := by
+  rw [topFree_iff, scanTop_append, h1]; exact h2
+
+/-- `code 'literal'` -/
+theorem code_lit_atom (c b : Chars) (hq : QSafe b) (hg : goodHead (lexL c) = true)
+    (hf : scanTop isConn 0 (lexL c) = some 0) : isAtomToks (pieceToks [.code c, .lit b]) = true := by
+  rw [pieceToks_code, pieceToks_lit hq]
+  refine isAtomToks_of_goodHead hg (topFree_parts hf ?_)
+  exact scanTop_other _ rfl _ (by intro t ht; simp [pieceToks] at ht; subst ht; rfl) 0
+
+/-- `code argument` -/
+theorem code_arg_atom (c : Chars) (v : JV) (hg : goodHead (lexL c) = true)
+    (hf : scanTop isConn 0 (lexL c) = some 0) : isAtomToks (pieceToks [.code c, argPiece v]) = true := by
+  rw [pieceToks_code]
+  exact isAtomToks_of_goodHead hg (topFree_parts hf (scanTop_other _ rfl _ (argToks_other v).2 0))
+
+theorem scanTop_cons_other (p : Cls → Bool) (hp : p .other = false) {t : Tok} (ht : cls t = .other) (d : Nat) (Z : List Tok) :
+    scanTop p d (t :: Z) = scanTop p d Z := by
+  simp [scanTop, ht, hp]
+
+theorem exists_last_other {R : List Tok} (hne : R ≠ []) (ho : OtherToks R) : ∃ R' u, R = R' ++ [u] ∧ cls u = .other :=
+  ⟨R.dropLast, R.getLast hne, (List.dropLast_concat_getLast hne).symm, ho _ (List.getLast_mem hne)⟩
+
+/-- an operand that opens with a parenthesis which closes before the end (a sub-select compared with a value) -/
+theorem isAtomToks_of_last {C Y : List Tok} (hC : C ≠ []) (hsel : startsSelect C = false)
+    (hlp : C.head?.map cls = some .lp) (hlast : ∃ Y' u, Y = Y' ++ [u] ∧ cls u = .other)
+    (hfree : topFree isConn (C ++ Y) = true) : isAtomToks (C ++ Y) = true := by
+  obtain ⟨Y', u, rfl, hu⟩ := hlast
+  rw [isAtomToks_iff]
+  refine ⟨by simp [hC], hfree, ?_, by rw [startsSelect_append _ hC]; exact hsel, ?_⟩
+  · rw [← List.append_assoc]; exact stripGroup_none_of_last (by rw [hu]; decide)
+  · intro he
+    cases C with
+    | nil => exact hC rfl
+    | cons t r =>
+      have : t = (.num, "1") := by simpa [oneEqOne] using (List.cons.inj he).1
+      subst this
+      simp at hlp
+      revert hlp; decide
+
+theorem atoms_reads (isAnd : Bool) (A : List Tok) (As : List (List Tok)) (h : ∀ X ∈ A :: As, isAtomToks X = true) :
+    Reads (interc (sepTok isAnd) (A :: As)) (fun asg => if isAnd then (A :: As).all asg else (A :: As).any asg) := by
+  have := opnds_reads isAnd (A, fun asg => asg A) (As.map (fun X => (X, fun asg => asg X))) (by
+    intro x hx
+    rcases List.mem_cons.mp hx with rfl | hx
+    · exact atom_opnd (h A (by simp))
+    · obtain ⟨X, hX, rfl⟩ := List.mem_map.mp hx
+      exact atom_opnd (h X (by simp [hX])))
+  simp only [List.map_cons, List.map_map, List.all_cons, List.any_cons, List.all_map, List.any_map] at this
+  have e : List.map ((fun x : List Tok × Meaning => x.1) ∘ fun X => (X, fun asg : List Tok → Bool => asg X)) As = As := by
+    simp [Function.comp_def]
+  rw [e] at this
+  exact this.congr (fun asg => by cases isAnd <;> simp [Function.comp_def])
+
+theorem interc_flat (sep : Tok) : ∀ (As : List (List Tok)) (L : List Tok),
+    L ++ As.flatMap (fun A => sep :: A) = interc sep (L :: As)
+  | [], L => by simp [interc]
+  | A :: As, L => by rw [interc_cons2, ← interc_flat sep As A]; simp
+
+/-! ### address patterns (`filterAccountAddress`) -/
+
+/-- what the reading needs to know about the text written around a column name `K`: all decidable -/
+structure AddrKey (K : Chars) : Prop where
+  eqHead : goodHead (lexL (K ++ " = ".toList)) = true
+  eqFree : scanTop isConn 0 (lexL (K ++ " = ".toList)) = some 0
+  andSeg : lexL (" and ".toList ++ K ++ "_array @@ (".toList) = (.ident "and", "") :: lexL (K ++ "_array @@ (".toList)
+  segHead : goodHead (lexL (K ++ "_array @@ (".toList)) = true
+  segFree : scanTop isConn 0 (lexL (K ++ "_array @@ (".toList)) = some 1
+  lenB1 : (run .dflt ("jsonb_array_length(".toList ++ K ++ "_array) = ".toList)).1 = .dflt
+  lenB2 : pend [] (run .dflt ("jsonb_array_length(".toList ++ K ++ "_array) = ".toList)).2 = []
+  lenHead : goodHead (lexL ("jsonb_array_length(".toList ++ K ++ "_array) = ".toList)) = true
+  lenFree : scanTop isConn 0 (lexL ("jsonb_array_length(".toList ++ K ++ "_array) = ".toList)) = some 0
+
+set_option maxRecDepth 20000 in
+theorem addrKey_accounts : AddrKey "accounts.address".toList :=
+  ⟨by decide, by decide, by decide, by decide, by decide, by decide, by decide, by decide, by decide⟩
+set_option maxRecDepth 20000 in
+theorem addrKey_balances : AddrKey "account_address".toList :=
+  ⟨by decide, by decide, by decide, by decide, by decide, by decide, by decide, by decide, by decide⟩
+
+/-- the conditions on the given segments, as token lists -/
+def segToks (K : Chars) : Nat → List Chars → List (List Tok)
+  | _, [] => []
+  | i, s :: ss =>
+    if s.isEmpty then segToks K (i + 1) ss
+    else pieceToks [.code (K ++ "_array @@ (".toList),
+                    .lit ("$[".toList ++ natDigits i ++ "] == \"".toList ++ s ++ ['"']),
+                    .code ")::jsonpath".toList] :: segToks K (i + 1) ss
+
+theorem segAtoms_eq (K : Chars) : ∀ (segs : List Chars) (i : Nat), segAtoms K i segs = (segToks K i segs).map .atom
+  | [], _ => rfl
+  | s :: ss, i => by
+    simp only [segAtoms, segToks]
+    split
+    · exact segAtoms_eq K ss (i + 1)
+    · simp [segAtoms_eq K ss (i + 1)]
+
+theorem segParts_toks {K : Chars} (hK : AddrKey K) : ∀ (segs : List Chars) (i : Nat),
+    pieceToks (segParts K i segs) = (segToks K i segs).flatMap (fun A => (.ident "and", "") :: A)
+  | [], _ => rfl
+  | s :: ss, i => by
+    simp only [segParts, segToks]
+    split
+    · exact segParts_toks hK ss (i + 1)
+    · simp only [pieceToks, List.flatMap_cons, segParts_toks hK ss (i + 1), hK.andSeg, Piece.chars]
+      simp
+
+theorem segToks_atoms {K : Chars} (hK : AddrKey K) : ∀ (segs : List Chars) (i : Nat), LitsSafe (segParts K i segs) →
+    ∀ A ∈ segToks K i segs, isAtomToks A = true
+  | [], _, _, A, hA => by simp [segToks] at hA
+  | s :: ss, i, hs, A, hA => by
+    simp only [segParts, segToks] at hs hA
+    split at hA
+    · next he => simp only [he, ↓reduceIte] at hs; exact segToks_atoms hK ss (i + 1) hs A hA
+    · next he =>
+      simp only [he, Bool.false_eq_true, ↓reduceIte] at hs
+      have hs' : LitsSafe (segParts K (i + 1) ss) := fun b hb => hs b (by simp [hb])
+      rcases List.mem_cons.mp hA with rfl | hA
+      · have hq := hs _ (List.mem_cons_of_mem _ (List.mem_cons_self))
+        rw [pieceToks_code, pieceToks_lit hq, pieceToks_code]
+        refine isAtomToks_of_goodHead hK.segHead (topFree_parts hK.segFree ?_)
+        rw [scanTop_cons_other _ rfl (cls_strTok _)]
+        simp only [pieceToks, List.append_nil]
+        decide
+      · exact segToks_atoms hK ss (i + 1) hs' A hA
+
+theorem address_reads {a K : Chars} {ps : List Piece} (hK : AddrKey K) (h : addressPieces a K = .ok ps) (hs : LitsSafe ps) :
+    Reads (pieceToks ps) (fun asg => (addressSkel a K).eval asg) := by
+  unfold addressPieces at h
+  unfold addressSkel
+  by_cases hacc : acceptedSegs (splitColon a) = true
+  · simp only [hacc, Bool.not_true, Bool.false_eq_true, ↓reduceIte] at h
+    by_cases hw : (splitColon a).any List.isEmpty = true
+    · simp only [hw, ↓reduceIte] at h ⊢
+      obtain rfl := Except.ok.inj h
+      have hL : lexL ("jsonb_array_length(".toList ++ K ++ "_array) = ".toList ++ natDigits (splitColon a).length) =
+          lexL ("jsonb_array_length(".toList ++ K ++ "_array) = ".toList) ++ [(.num, String.ofList (natDigits (splitColon a).length))] := by
+        rw [lexL_append_boundary _ _ hK.lenB1 hK.lenB2, lexL_natDigits]
+      have hLa : isAtomToks (lexL ("jsonb_array_length(".toList ++ K ++ "_array) = ".toList ++ natDigits (splitColon a).length)) = true := by
+        rw [hL]
+        exact isAtomToks_of_goodHead hK.lenHead (topFree_parts hK.lenFree
+          (scanTop_other _ rfl _ (by intro t ht; simp at ht; subst ht; rfl) 0))
+      have hs' : LitsSafe (segParts K 0 (splitColon a)) := fun b hb => hs b (by simp [hb])
+      rw [pieceToks_code, segParts_toks hK, interc_flat]
+      have := atoms_reads true _ _ (fun X hX => by
+        rcases List.mem_cons.mp hX with rfl | hX
+        · exact hLa
+        · exact segToks_atoms hK _ 0 hs' X hX)
+      refine this.congr (fun asg => ?_)
+      simp [mkAnd_eval, segAtoms_eq, BTree.eval, List.all_map, Function.comp_def]
+    · simp only [hw, Bool.false_eq_true, ↓reduceIte] at h ⊢
+      obtain rfl := Except.ok.inj h
+      have hq := hs a (by simp)
+      exact opnd_reads (atom_opnd (code_lit_atom _ _ hq hK.eqHead hK.eqFree))
+  · simp [hacc] at h
+
+/-! ### address patterns on transactions (`filterAccountAddressOnTransactions`) -/
+
+theorem addressOnTx_both {a : Chars} {ps : List Piece} (h : addressOnTxPieces a true true = .ok ps) (hs : LitsSafe ps) :
+    Reads (pieceToks ps) (fun asg => (addrOnTxSkel a).eval asg) := by
+  unfold addressOnTxPieces at h
+  unfold addrOnTxSkel txCols
+  have hor : lexL " or ".toList = [sepTok false] := by decide
+  by_cases hacc : acceptedSegs (splitColon a) = true
+  · simp only [hacc, Bool.not_true, Bool.false_eq_true, ↓reduceIte] at h
+    by_cases hw : (splitColon a).any List.isEmpty = true
+    · simp only [hw, ↓reduceIte, Bool.and_self] at h ⊢
+      obtain rfl := Except.ok.inj h
+      have hq := hs (txArrayJson (splitColon a)) (by simp)
+      rw [pieceToks_append, pieceToks_append, pieceToks_code " or ".toList, hor,
+        show pieceToks ([] : List Piece) = [] from rfl, List.append_nil, List.append_assoc]
+      have := atoms_reads false _ [_] (fun X hX => by
+        simp only [List.mem_cons, List.not_mem_nil, or_false] at hX
+        rcases hX with rfl | rfl
+        · exact code_lit_atom "sources_arrays @> ".toList _ hq (by decide) (by decide)
+        · exact code_lit_atom "destinations_arrays @> ".toList _ hq (by decide) (by decide))
+      simp only [interc] at this
+      refine Reads.congr this (fun asg => ?_)
+      simp [BTree.eval]
+    · simp only [hw, Bool.false_eq_true, ↓reduceIte, Bool.and_self] at h ⊢
+      obtain rfl := Except.ok.inj h
+      have hq := hs ('[' :: '"' :: a ++ ['"', ']']) (by simp)
+      rw [pieceToks_append, pieceToks_append, pieceToks_code " or ".toList, hor,
+        show pieceToks ([] : List Piece) = [] from rfl, List.append_nil, List.append_assoc]
+      have := atoms_reads false _ [_] (fun X hX => by
+        simp only [List.mem_cons, List.not_mem_nil, or_false] at hX
+        rcases hX with rfl | rfl
+        · exact code_lit_atom "sources @> ".toList _ hq (by decide) (by decide)
+        · exact code_lit_atom "destinations @> ".toList _ hq (by decide) (by decide))
+      simp only [interc] at this
+      refine Reads.congr this (fun asg => ?_)
+      simp [BTree.eval]
+  · simp [hacc] at h
+
+theorem addressOnTx_one {a : Chars} {s d : Bool} {ps : List Piece} (hsd : (s != d) = true)
+    (h : addressOnTxPieces a s d = .ok ps) (hs : LitsSafe ps) : isAtomToks (pieceToks ps) = true := by
+  unfold addressOnTxPieces at h
+  by_cases hacc : acceptedSegs (splitColon a) = true
+  · simp only [hacc, Bool.not_true, Bool.false_eq_true, ↓reduceIte] at h
+    by_cases hw : (splitColon a).any List.isEmpty = true
+    · simp only [hw, ↓reduceIte] at h
+      cases s <;> cases d <;> simp at hsd <;> simp at h <;> subst h
+      · exact code_lit_atom "destinations_arrays @> ".toList _ (hs _ (by simp)) (by decide) (by decide)
+      · exact code_lit_atom "sources_arrays @> ".toList _ (hs _ (by simp)) (by decide) (by decide)
+    · simp only [hw, Bool.false_eq_true, ↓reduceIte] at h
+      cases s <;> cases d <;> simp at hsd <;> simp at h <;> subst h
+      · exact code_lit_atom "destinations @> ".toList _ (hs _ (by simp)) (by decide) (by decide)
+      · exact code_lit_atom "sources @> ".toList _ (hs _ (by simp)) (by decide) (by decide)
+  · simp [hacc] at h
+
+/-! ### balance leaves: `( select … ) < value` -/
+
+theorem subselect_atom (c1 : Chars) (Y : List Tok) (v : JV) (h1 : lexL c1 ≠ []) (h2 : startsSelect (lexL c1) = false)
+    (h3 : (lexL c1).head?.map cls = some .lp) (h4 : scanTop isConn 0 (lexL c1) = some 1)
+    (h5 : scanTop isConn 1 Y = some 0) : isAtomToks (lexL c1 ++ (Y ++ pieceToks [argPiece v])) = true := by
+  obtain ⟨R', u, hR, hu⟩ := exists_last_other (argToks_other v).1 (argToks_other v).2
+  refine isAtomToks_of_last h1 h2 h3 ⟨Y ++ R', u, by rw [hR, List.append_assoc], hu⟩ (topFree_parts h4 ?_)
+  rw [scanTop_append, h5]
+  exact scanTop_other _ rfl _ (argToks_other v).2 0
+
+set_option maxRecDepth 100000 in
+theorem balanceOf_atom (asset ledger : Chars) (v : JV) :
+    isAtomToks (pieceToks [.code (balanceHead ++ "asset = ".toList), .lit (quoteBody asset),
+       .code " and account_address = accounts.address and ledger = ".toList, .lit (quoteBody ledger),
+       .code balanceTail, argPiece v]) = true := by
+  rw [pieceToks_code, pieceToks_lit (qsafe_quoteBody asset), pieceToks_code, pieceToks_lit (qsafe_quoteBody ledger), pieceToks_code]
+  have := subselect_atom (balanceHead ++ "asset = ".toList)
+    (strTok (quoteBody asset) :: (lexL " and account_address = accounts.address and ledger = ".toList ++
+      strTok (quoteBody ledger) :: lexL balanceTail)) v (by decide) (by decide) (by decide) (by decide) (by
+        rw [scanTop_cons_other _ rfl (cls_strTok _), scanTop_append,
+          show scanTop isConn 1 (lexL " and account_address = accounts.address and ledger = ".toList) = some 1 by decide]
+        simp only [Option.bind]
+        rw [scanTop_cons_other _ rfl (cls_strTok _)]
+        decide)
+  simpa [List.append_assoc] using this
+
+set_option maxRecDepth 100000 in
+theorem balance_atom (ledger : Chars) (v : JV) :
+    isAtomToks (pieceToks [.code (balanceHead ++ "account_address = accounts.address and ledger = ".toList), .lit (quoteBody ledger),
+       .code balanceTail, argPiece v]) = true := by
+  rw [pieceToks_code, pieceToks_lit (qsafe_quoteBody ledger), pieceToks_code]
+  have := subselect_atom (balanceHead ++ "account_address = accounts.address and ledger = ".toList)
+    (strTok (quoteBody ledger) :: lexL balanceTail) v (by decide) (by decide) (by decide) (by decide) (by
+        rw [scanTop_cons_other _ rfl (cls_strTok _)]
+        decide)
+  simpa [List.append_assoc] using this
+
+/-! ### comparisons and metadata -/
+
+theorem cmp_facts (name : Chars)
+    (hn : ∀ o ∈ [['='], ['>', '='], ['>'], ['<', '='], ['<'], []],
+      goodHead (lexL (name ++ o ++ [' '])) = true ∧ scanTop isConn 0 (lexL (name ++ o ++ [' '])) = some 0) (op : String) :
+    goodHead (lexL (name ++ opSql op ++ [' '])) = true ∧ scanTop isConn 0 (lexL (name ++ opSql op ++ [' '])) = some 0 := by
+  unfold opSql
+  repeat' split
+  all_goals exact hn _ (by simp)
+
+theorem cmp_atom (name : Chars)
+    (hn : ∀ o ∈ [['='], ['>', '='], ['>'], ['<', '='], ['<'], []],
+      goodHead (lexL (name ++ o ++ [' '])) = true ∧ scanTop isConn 0 (lexL (name ++ o ++ [' '])) = some 0) (op : String) (v : JV) :
+    isAtomToks (pieceToks [.code (name ++ opSql op ++ [' ']), argPiece v]) = true :=
+  code_arg_atom _ v (cmp_facts name hn op).1 (cmp_facts name hn op).2
+
+theorem metadata_atom (ep : Endpoint) (pit : Bool) (hep : ep ≠ .logs) (k : Chars) (v : JV) :
+    isAtomToks (pieceToks [.code (metadataColumn ep pit ++ " @> ".toList), .lit (jsonBody (goJson (.obj [(k, v)])))]) = true := by
+  have hq : QSafe (jsonBody (goJson (.obj [(k, v)]))) := qsafe_jsonBody _ (jsafe_goJson _)
+  cases ep <;> cases pit <;> first | exact absurd rfl hep | exact code_lit_atom _ _ hq (by decide) (by decide)
+
+/-! ## one leaf -/
+
+theorem leaf_reads {ep : Endpoint} {pit : Bool} {ledger : Chars} {key : FKey} {op : String} {v : JV} {ps : List Piece}
+    (h : leafPieces ep pit ledger key op v = .ok ps) :
+    Reads (pieceToks ps) (fun asg => (leafSkel ep pit ledger key op v).eval asg) := by
+  obtain ⟨_, _, g⟩ := leaf_good h
+  have hs := g.safe
+  have h0 := h
+  have one : leafSkel ep pit ledger key op v = .atom (pieceToks ps) → isAtomToks (pieceToks ps) = true →
+      Reads (pieceToks ps) (fun asg => (leafSkel ep pit ledger key op v).eval asg) := by
+    intro e ha; rw [e]; exact opnd_reads (atom_opnd ha)
+  cases ep <;> cases key
+  all_goals simp only [leafPieces] at h
+  all_goals try (cases h; done)
+  -- accounts.address
+  · split at h
+    · cases h
+    · cases v <;> simp only [isStr] at h <;> try (cases h; done)
+      simp only [leafSkel, isStr]
+      exact address_reads addrKey_accounts h hs
+  -- accounts.metadata
+  · split at h
+    · cases h
+    · obtain rfl := Except.ok.inj h
+      refine one ?_ (metadata_atom _ _ (by decide) _ _)
+      simp only [leafSkel, h0]
+  -- accounts.balanceOf
+  · obtain rfl := Except.ok.inj h
+    refine one ?_ (balanceOf_atom _ _ _)
+    simp only [leafSkel, h0]
+  -- accounts.balance
+  · obtain rfl := Except.ok.inj h
+    refine one ?_ (balance_atom _ _)
+    simp only [leafSkel, h0]
+  -- transactions.account
+  · split at h
+    · cases h
+    · cases v <;> simp only [isStr] at h <;> try (cases h; done)
+      simp only [leafSkel, isStr]
+      exact addressOnTx_both h hs
+  -- transactions.source
+  · split at h
+    · cases h
+    · cases v <;> simp only [isStr] at h <;> try (cases h; done)
+      refine one ?_ (addressOnTx_one (by decide) h hs)
+      simp only [leafSkel, h0]
+  -- transactions.destination
+  · split at h
+    · cases h
+    · cases v <;> simp only [isStr] at h <;> try (cases h; done)
+      refine one ?_ (addressOnTx_one (by decide) h hs)
+      simp only [leafSkel, h0]
+  -- transactions.metadata
+  · split at h
+    · cases h
+    · obtain rfl := Except.ok.inj h
+      refine one ?_ (metadata_atom _ _ (by decide) _ _)
+      simp only [leafSkel, h0]
+  -- transactions.reference / timestamp
+  · obtain rfl := Except.ok.inj h
+    refine one ?_ (cmp_atom _ (by decide) op v)
+    simp only [leafSkel, h0]
+  · obtain rfl := Except.ok.inj h
+    refine one ?_ (cmp_atom _ (by decide) op v)
+    simp only [leafSkel, h0]
+  -- balances.address
+  · split at h
+    · cases h
+    · cases v <;> simp only [isStr] at h <;> try (cases h; done)
+      simp only [leafSkel, isStr]
+      exact address_reads addrKey_balances h hs
+  -- balances.metadata
+  · split at h
+    · cases h
+    · obtain rfl := Except.ok.inj h
+      refine one ?_ (metadata_atom _ _ (by decide) _ _)
+      simp only [leafSkel, h0]
+  -- logs.date
+  · obtain rfl := Except.ok.inj h
+    refine one ?_ (cmp_atom _ (by decide) op v)
+    simp only [leafSkel, h0]
+
 end FilterSem
